@@ -102,6 +102,7 @@ def inputs(draw, with_df=False):
                                              [1.0, 2.0, 0.5, 2.0][: len(spatial) + 1]]))
         out["shuffle"] = draw(st.integers(0, 5))
         out["recompute_area"] = draw(st.booleans())
+        out["seg_id_float"] = draw(st.integers(0, 3)) == 0  # the label column read as 7.0, 12.0, ...
     return out
 
 
@@ -235,6 +236,9 @@ def probe_from_df(inp) -> ProbeResult:
     k = inp["shuffle"] % len(rows)
     rows = rows[k:] + rows[:k]
     df = pd.DataFrame(rows)
+    if inp.get("seg_id_float"):
+        df["seg_id"] = df["seg_id"].astype(float)
+        res.tags.append("c13:seg_id_float_column")
     nm = {"time": "t", "id": "id", "parent_id": "parent_id", "seg_id": "seg_id"}
     if inp["with_pos"]:
         nm["pos"] = axes
